@@ -70,10 +70,12 @@ CompStates(v) == {cz \in Comps \X BOOLEAN :
 
 \* statement classes: how the proxy can know whether the statement is a SELECT
 SelOf(op) == CASE op = "QUERY" -> {"text_select", "text_write"}
-               [] op = "EXECUTE" -> {"prep_select", "prep_write", "prep_unknown"}
+               \* prep_late_*: the connection first EXECUTEd the id while the proxy had not seen its PREPARE (a driver
+               \* after a proxy restart), then PREPAREd it through the proxy: from then on the proxy knows the statement
+               [] op = "EXECUTE" -> {"prep_select", "prep_write", "prep_unknown", "prep_late_select", "prep_late_write"}
                [] op = "BATCH" -> {"batch"}
                [] op = "PREPARE" -> {"text_select", "text_write"}
-IsSelect(sel) == sel \in {"text_select", "prep_select"}
+IsSelect(sel) == sel \in {"text_select", "prep_select", "prep_late_select"}
 
 Singletons == {{l} : l \in Levels}
 Pairs == {{a, b} : a, b \in Levels} \ Singletons
